@@ -40,6 +40,69 @@ def apply_edits(repo, edits):
     return ov
 
 
+def patch_overrides(repo, patch_text):
+    """apply a unified diff in memory (hunks located by their text, not their line numbers); None when a hunk's
+    old text is not present exactly once"""
+    ov = {}
+    rel = None
+    hunks = []
+    cur = None
+    for line in patch_text.splitlines():
+        if line.startswith('+++ '):
+            rel = line[4:].strip()
+            rel = rel[2:] if rel.startswith(('a/', 'b/')) else rel
+            continue
+        if line.startswith('--- ') or line.startswith('diff ') or line.startswith('index '):
+            continue
+        if line.startswith('@@'):
+            cur = {'rel': rel, 'old': [], 'new': []}
+            hunks.append(cur)
+            continue
+        if cur is None or line.startswith('\\'):
+            continue
+        if line.startswith('-'):
+            cur['old'].append(line[1:])
+        elif line.startswith('+'):
+            cur['new'].append(line[1:])
+        else:
+            body = line[1:] if line.startswith(' ') else line
+            cur['old'].append(body)
+            cur['new'].append(body)
+    for h in hunks:
+        m = [x for x in repo.modules.values() if x.relpath == h['rel']]
+        if not m:
+            return None
+        text = ov.get(h['rel'], m[0].text)
+        old = '\n'.join(h['old']) + '\n'
+        new = '\n'.join(h['new']) + '\n'
+        if text.count(old) != 1:
+            return None
+        ov[h['rel']] = text.replace(old, new)
+    return ov or None
+
+
+def seeded(prop):
+    """[(name, patch text)] of the committed seeded changes for this property (/verif/seeded/*/)"""
+    import json
+    import os
+    root = os.path.join(os.path.dirname(os.path.dirname(os.path.abspath(__file__))), 'seeded')
+    out = []
+    if not os.path.isdir(root):
+        return out
+    for d in sorted(os.listdir(root)):
+        mp = os.path.join(root, d, 'meta.json')
+        pp = os.path.join(root, d, 'patch.diff')
+        if not (os.path.exists(mp) and os.path.exists(pp)):
+            continue
+        try:
+            meta = json.load(open(mp))
+        except ValueError:
+            continue
+        if meta.get('property') == prop:
+            out.append(('seeded/' + d, open(pp).read()))
+    return out
+
+
 def run_check(mod, prop, root, overrides):
     repo = Repo(root, overrides=overrides)
     r = Run(prop, 'quick', 0, repo)
@@ -54,11 +117,29 @@ def selftest(run, repo, mod):
     prop = run.prop
     muts = getattr(mod, 'MUTANTS', [])
     eqs = getattr(mod, 'EQUIV', [])
-    if not muts and not eqs:
+    seeds = seeded(prop)
+    if not muts and not eqs and not seeds:
         return
     t0 = time.time()
     base = {f.ident() for f in run.findings}
-    res = {'mutants': 0, 'caught': 0, 'skipped': [], 'equiv': 0, 'silent': 0, 'missed': [], 'noisy': []}
+    res = {'mutants': 0, 'caught': 0, 'skipped': [], 'equiv': 0, 'silent': 0, 'missed': [], 'noisy': [],
+           'seeded': 0, 'seeded_caught': 0}
+    # changes written by independent reviewers who saw only the property text (kept under /verif/seeded): each must
+    # be reported as a violation, not as an analysis error
+    for name, patch in seeds:
+        ov = patch_overrides(repo, patch)
+        if ov is None:
+            res['skipped'].append(name + ' (patch no longer applies)')
+            continue
+        res['seeded'] += 1
+        r, err = run_check(mod, prop, repo.root, ov)
+        if r is None:
+            res['missed'].append('%s (analysis error instead of finding: %s)' % (name, err[:120]))
+            continue
+        if [f for f in r.findings if f.ident() not in base]:
+            res['seeded_caught'] += 1
+        else:
+            res['missed'].append('%s (no new finding)' % name)
     for mt in muts:
         ov = apply_edits(repo, mt['edits'])
         if ov is None:
